@@ -237,8 +237,14 @@ Removed == Is("removed")
            /\ ver' = ver \cup {<<0, Ev.num>>}
            /\ UNCHANGED <<cur, hs, base, wents, durn>>
 (* ... and with no handle open and deletions processed, the directory holds exactly the live files *)
+(* Ev.pending: tables Pebble itself still counts as obsolete and not yet deleted.  The property's     *)
+(* precondition "deletions have been processed" is observable only as pending = 0; with deletions     *)
+(* still pending on a running store the directory may hold more than the live set, never less.        *)
+(* After a reopen the listing is exact unconditionally ("reopening does not change this").            *)
 DirList == Is("dirlist")
-           /\ (Chk("c39") => (ToSet(Ev.ssts) = ToSet(Ev.live) /\ Ev.blobs = Ev.liveblobs))
+           /\ (Chk("c39") =>
+                 /\ ToSet(Ev.live) \subseteq ToSet(Ev.ssts)
+                 /\ ((Ev.pending = 0 \/ Ev.when = "reopened") => (ToSet(Ev.ssts) = ToSet(Ev.live) /\ Ev.blobs = Ev.liveblobs)))
            /\ UNCHANGED <<cur, hs, cv>>
 
 (* free-form annotations *)
